@@ -19,11 +19,15 @@ from bounded import standin
 from ._sessions import (
     CATS,
     PYPROJECT_PLAIN,
+    Deadline,
     Failures,
     Project,
+    Skipped,
     diff_trees,
     replay_script,
+    result_for,
     same_ast,
+    set_deadline,
     step_src,
     tail,
 )
@@ -60,6 +64,8 @@ def rand_value(rng, depth=0):
     if k == 2:
         alphabet = ["a", "b", " ", "'", '"', "\\n", "\\t", "ä", "x", "{", "}", "#", "\\\\"]
         body = "".join(rng.choice(alphabet) for _ in range(rng.randrange(0, 12)))
+        if depth == 0:
+            body = body.strip(" ")  # a lone top-level string with outer blanks is the known defect F1 (dedicated case below)
         body = body.replace('"', '\\"')
         return f'"{body}"'
     if k == 3:
@@ -124,7 +130,36 @@ def f7_predicate(before, after):
     return True
 
 
-def rerun_job(files, flags, desc, fails, runs=2, require_green=True, stdin=b""):
+def f1_predicate(values, r):
+    """F1: the rerun changed no file, and every test that is not green is a `assert <str value> == snapshot(<literal>)` whose value has
+    leading/trailing blanks while the literal written by the earlier approved run equals the value with those blanks stripped
+    (black formats the lone string fragment like a docstring)."""
+    if values is None or r.before != r.after or not r.outcomes:
+        return False
+    bad = [t for t, o in r.outcomes.items() if o != {"passed"}]
+    if not bad:
+        return False
+    import ast as _ast
+
+    for t in bad:
+        mod, name = t.split("::")
+        m = re.fullmatch(r"test_v(\d+)", name)
+        if not m or int(m.group(1)) >= len(values):
+            return False
+        try:
+            v = eval(values[int(m.group(1))], {})
+            tree = _ast.parse(r.after[mod + ".py"].decode())
+            fn = next(n for n in tree.body if isinstance(n, _ast.FunctionDef) and n.name == name)
+            call = next(n for n in _ast.walk(fn) if isinstance(n, _ast.Call) and getattr(n.func, "id", None) == "snapshot")
+            lit = _ast.literal_eval(call.args[0])
+        except Exception:
+            return False
+        if not (isinstance(v, str) and isinstance(lit, str) and lit != v and v != v.strip() and lit.strip() == v.strip()):
+            return False
+    return True
+
+
+def rerun_job(files, flags, desc, fails, runs=2, require_green=True, stdin=b"", values=None):
     """first session with `flags`, then `runs` identical sessions; each rerun must be a no-op. returns #sessions"""
     h = Hist(files)
     try:
@@ -154,6 +189,8 @@ def rerun_job(files, flags, desc, fails, runs=2, require_green=True, stdin=b""):
                 if diffs and f7_predicate(r.before, r.after) and (r.rc == 0 or not require_green) and \
                         all(p.startswith(("rerun #%d with" % (i + 1), "---")) or "Update snapshots" in p for p in problems):
                     finding = "F7"
+                elif not diffs and require_green and r.rc != 0 and not pending_headers(r.out) and f1_predicate(values, r):
+                    finding = "F1"
                 check = ["assert r['after'] == r['before'], sorted(k for k in set(r['after']) | set(r['before']) if r['after'].get(k) != r['before'].get(k))"]
                 if require_green:
                     check += ["assert r['rc'] == 0, r['rc']",
@@ -162,6 +199,8 @@ def rerun_job(files, flags, desc, fails, runs=2, require_green=True, stdin=b""):
                           h.replay("\n".join(check)))
                 break
         return h.sessions
+    except Skipped:
+        return max(h.sessions - 1, 0)
     except BaseException:
         fails.add(None, dict(desc, flags=flags), "C08 harness exception:\n" + traceback.format_exc(), "")
         return h.sessions
@@ -252,12 +291,25 @@ def replay_c09(files, order, cats):
                "builtin values; thorough adds 3 x 30 random nested values and all 15 subsets); approval orders: quick 2 category "
                "triples x 6 orders, thorough all 24 orders of 4 (+ all sub-orders) on 3 templates, plus trailing-comma layouts")
 def run(tier, seed):
+    return _run(tier, seed)
+
+
+def run_for(pid, tier, seed):
+    """only the parts that serve property `pid`, and only the failures attributed to it"""
+    return result_for(pid, _run(tier, seed, only=pid))
+
+
+run.run_for = run_for
+
+
+def _run(tier, seed, only=None):
     t0 = time.time()
     rng = random.Random(seed)
     fails = Failures()
     samples, cross = [], []
     evaluated = 0
     distinct = 0
+    deadline = set_deadline(Deadline(tier))
     try:
         quick = tier == "quick"
         templates = {f"T{i}": make_template(random.Random(seed * 1000 + i)) for i in range(1 if quick else 3)}
@@ -275,6 +327,8 @@ def run(tier, seed):
             f13_set = dict(F13_PROJECTS) if quick else dict(F13_PROJECTS, **F13_MORE)
             for name, (src, cats) in f13_set.items():
                 plans.append((name, {"test_a.py": src, "pyproject.toml": PYPROJECT_PLAIN}, cats))
+            if only == "C08":
+                plans = []
             for key, files, cats in plans:
                 order_job_factory(ex, files, cats, futs, key)
             combined = {}
@@ -288,7 +342,8 @@ def run(tier, seed):
                         combined[(key, F)] = (files, ex.submit(comb))
             # ---------------- C08 jobs
             c08 = []
-            for tid, tpl in templates.items():
+            want_c08 = only in (None, "C08")
+            for tid, tpl in (templates.items() if want_c08 else ()):
                 c08.append(ex.submit(rerun_job, tpl, ALLF, dict(project=f"template {tid}"), fails))
                 subsets = rng.sample([F for F in ALL_SUBSETS if 0 < len(F) < 4], 3) if quick else [F for F in ALL_SUBSETS if 0 < len(F) < 4]
                 for F in subsets:
@@ -297,16 +352,20 @@ def run(tier, seed):
                     c08.append(ex.submit(rerun_job, tpl, "review", dict(project=f"template {tid}", answers="all y"), fails, 1, True,
                                          b"y\n" * 4))
                     c08.append(ex.submit(rerun_job, tpl, ALLF + ",report", dict(project=f"template {tid}"), fails, 1, True))
-            zoo = [("fixed", ZOO_FIXED)]
-            if not quick:
+            zoo = [("fixed", ZOO_FIXED)] if want_c08 else []
+            if not quick and want_c08:
                 for i in range(3):
                     r2 = random.Random(seed * 77 + i)
                     zoo.append((f"rand{i}", [rand_value(r2) for _ in range(30)]))
+            if not quick and want_c08:
+                zoo.append(("blanks", ['" a "', '"x "', '[" kept "]']))  # lone strings with outer blanks: known defect F1
             for tag, values in zoo:
-                c08.append(ex.submit(rerun_job, zoo_project(values, tag), ALLF, dict(project=f"zoo {tag}", values=len(values)), fails))
+                c08.append(ex.submit(rerun_job, zoo_project(values, tag), ALLF, dict(project=f"zoo {tag}", values=len(values)), fails,
+                                     2, True, b"", values))
                 samples.append(f"C08 zoo {tag}: {values[:6]} ...")
-            c08.append(ex.submit(rerun_job, F7_PROJECT, ALLF, dict(project="complex value (repr with outer parentheses)"), fails))
-            if not quick:
+            if want_c08:
+                c08.append(ex.submit(rerun_job, F7_PROJECT, ALLF, dict(project="complex value (repr with outer parentheses)"), fails))
+            if not quick and want_c08:
                 c08.append(ex.submit(rerun_job, F7_PROJECT, "create,update", dict(project="complex value"), fails, 2, True))
             distinct += len(c08)
 
@@ -316,6 +375,8 @@ def run(tier, seed):
                 evaluated += 1
                 try:
                     results[k] = f.result()
+                except Skipped:
+                    evaluated -= 1
                 except BaseException:
                     fails.add(None, dict(project=k[0], order=list(k[1])), "C09 harness exception:\n" + traceback.format_exc(), "")
             for (key, F), (files, f) in combined.items():
@@ -323,6 +384,9 @@ def run(tier, seed):
                 distinct += 1
                 try:
                     r = f.result()
+                except Skipped:
+                    evaluated -= 1
+                    continue
                 except BaseException:
                     fails.add(None, dict(project=key, combined=list(F)), "C09 harness exception:\n" + traceback.format_exc(), "")
                     continue
@@ -369,5 +433,9 @@ def run(tier, seed):
         ]
     except BaseException:
         fails.add(None, "B-fixpoint driver", "driver exception:\n" + traceback.format_exc(), "")
-    return dict(evaluated=evaluated, distinct=distinct, failures=fails.items, samples=samples[:6], cross_checks=cross,
+    finally:
+        set_deadline(None)
+    if deadline.skipped:
+        cross.append(f"BUDGET: {deadline.skipped} sessions skipped because the {tier} wall-clock budget was used up")
+    return dict(skipped=deadline.skipped, evaluated=evaluated, distinct=distinct, failures=fails.items, samples=samples[:5], cross_checks=cross,
                 seconds=round(time.time() - t0, 1), dropped={str(k): v for k, v in fails.dropped.items()})
